@@ -170,7 +170,8 @@ func (rc *realController) CalculateBatchContext(release *v1beta1.BatchRelease) (
 	}
 
 	currentPartition := intstr.FromInt(0)
-	if rc.object.Spec.UpdateStrategy.RollingUpdate.Partition != nil {
+	// updateStrategy.rollingUpdate is optional (absent e.g. with type OnDelete): no block means no partition
+	if rc.object.Spec.UpdateStrategy.RollingUpdate != nil && rc.object.Spec.UpdateStrategy.RollingUpdate.Partition != nil {
 		intPartition := *rc.object.Spec.UpdateStrategy.RollingUpdate.Partition
 		currentPartition = intstr.FromInt(int(intPartition))
 	}
